@@ -7,6 +7,7 @@ CONSTANTS
   Classes = {"ok", "guest"}
   MaxBad = 1
   Emit = TRUE
+  EmitMod = 8
 INIT InitGraphs
 NEXT NextGraphs
 INVARIANTS TheoremsHold TheoremsHoldAllClosures EmitInv
